@@ -477,6 +477,7 @@ pub fn run_c09(p: &Params) -> Outcome {
     let glong = AGen { min_ops: 150, max_ops: 400, caps: &[1, 2, 3, 5, 8, 16], ..g.clone() };
     out.merge(rand_adp("C09", p, "c09-rand-long", p.n(1_200, 30_000), &glong, &|rng| (vec![gen_lim(rng, ALL_KINDS, BASIC_PKS, 8)], rng.chance(1, 2)), &nt));
     out.merge(rand_adp("C09", p, "c09-rand-backlog", p.n(1_500, 40_000), &backlog(&g), &|rng| (vec![gen_lim(rng, ALL_KINDS, BASIC_PKS, 4)], rng.chance(1, 2)), &nt));
+    out.merge(late_parts("C09", p));
     out.merge(rand_adp("C09", p, "c09-rand-backlog-far", p.n(1_500, 40_000), &backlog_far(&g), &|rng| (vec![gen_lim(rng, ALL_KINDS, BASIC_PKS, 4)], rng.chance(1, 2)), &nt));
     out
 }
@@ -736,6 +737,7 @@ pub fn run_c12(p: &Params) -> Outcome {
         let n = rng.range(2, 3);
         ((0..n).map(|_| gen_stage(rng, ALL_PKS, 5)).collect(), rng.chance(1, 2))
     }, &nt));
+    out.merge(late_parts("C12", p));
     out.merge(rand_adp("C12", p, "c12-rand-backlog-far", p.n(1_000, 30_000), &backlog_far(&g), &|rng| {
         let n = rng.range(2, 3);
         ((0..n).map(|_| gen_stage(rng, ALL_PKS, 5)).collect(), rng.chance(1, 2))
@@ -1071,6 +1073,222 @@ pub fn run_c15(p: &Params) -> Outcome {
     let glong = AGen { min_ops: 150, max_ops: 400, caps: &[1, 2, 3, 5, 8, 16], ..g.clone() };
     out.merge(rand_adp("C15", p, "c15-rand-long", p.n(1_200, 30_000), &glong, &|rng| (vec![gen_lim(rng, &[Kind::Head, Kind::Tail], &[PK::Static], 8)], rng.chance(1, 2)), &nt));
     out.merge(rand_adp("C15", p, "c15-rand-backlog", p.n(1_500, 40_000), &backlog(&g), &|rng| (vec![gen_lim(rng, &[Kind::Head, Kind::Tail], &[PK::Static, PK::StaticParts], 8)], rng.chance(1, 2)), &nt));
+    out.merge(late_parts("C15", p));
     out.merge(rand_adp("C15", p, "c15-rand-backlog-far", p.n(1_000, 30_000), &backlog_far(&g), &|rng| (vec![gen_lim(rng, &[Kind::Head, Kind::Tail], &[PK::Static, PK::StaticParts], 5)], rng.chance(1, 2)), &nt));
+    out
+}
+
+// ---------------------------------------------------------------------------------------------
+// An adapter that is already in use is handed on as an observer (`VectorObserver::into_parts` on the adapter
+// itself) - also in the middle of a drain, when it has handed out only part of what one source update became.
+// Whoever receives (values, stream) starts from `values`: values + everything the stream yields from then on
+// must be the adapter's view of the source.
+
+fn late_parts_case(kind: Kind, dynamic: bool, limit: usize, init: &[u32], op1: &VOp, taken: usize, op2: &VOp) -> Result<u64, String> {
+    use eyeball::Observable;
+    use eyeball_im::{ObservableVector, VectorDiff};
+    use eyeball_im_util::vector::{VectorObserver, VectorObserverExt};
+    use futures_core::Stream;
+    use imbl::Vector;
+    use std::task::{Context, Poll};
+
+    fn drain<S: Stream<Item = VectorDiff<u32>> + Unpin>(s: &mut S, view: &mut Vector<u32>, max: usize, bound: Option<usize>) -> Result<(usize, bool), String> {
+        let (_f, w) = flag_waker();
+        let mut cx = Context::from_waker(&w);
+        let mut n = 0;
+        loop {
+            if max != 0 && n >= max {
+                return Ok((n, false));
+            }
+            match std::pin::Pin::new(&mut *s).poll_next(&mut cx) {
+                Poll::Ready(Some(d)) => {
+                    let ok = std::panic::catch_unwind(std::panic::AssertUnwindSafe(|| {
+                        let mut v = view.clone();
+                        d.clone().apply(&mut v);
+                        v
+                    }));
+                    match ok {
+                        Ok(v) => *view = v,
+                        Err(_) => return Err(format!("diff {d:?} is not applicable to the view {:?} built from the handed-out values and the diffs so far", view.iter().collect::<Vec<_>>())),
+                    }
+                    if let Some(b) = bound {
+                        if view.len() > b {
+                            return Err(format!("[C15] the view holds {} items after {d:?}, the fixed limit is {b}", view.len()));
+                        }
+                    }
+                    n += 1;
+                }
+                Poll::Ready(None) => return Ok((n, true)),
+                Poll::Pending => return Ok((n, false)),
+            }
+        }
+    }
+    let expect = |m: &[u32]| -> Vec<u32> {
+        match kind {
+            Kind::Head => m.iter().take(limit).copied().collect(),
+            Kind::Tail => m[m.len().saturating_sub(limit)..].to_vec(),
+            Kind::Skip => m.iter().skip(limit).copied().collect(),
+        }
+    };
+    let mut ob: ObservableVector<u32> = ObservableVector::with_capacity(16);
+    ob.append(init.iter().copied().collect());
+    let mut model = init.to_vec();
+    let lim = Observable::new(limit);
+    let bound = if !dynamic && kind != Kind::Skip { Some(limit) } else { None };
+    macro_rules! body {
+        ($a:expr, $v0:expr) => {{
+            let mut a = $a;
+            let mut view: Vector<u32> = $v0;
+            drain(&mut a, &mut view, 0, bound)?;
+            apply_on_vec(&mut ob, &mut model, op1);
+            // the first consumer takes `taken` items and stops (0 = none)
+            let mut events = 0u64;
+            if taken > 0 {
+                events += drain(&mut a, &mut view, taken, bound)?.0 as u64;
+            }
+            let (vals, mut s2) = VectorObserver::into_parts(a);
+            let mut view2: Vector<u32> = vals;
+            if let Some(b) = bound {
+                if view2.len() > b {
+                    return Err(format!("[C15] into_parts handed out {} items, the fixed limit is {b}", view2.len()));
+                }
+            }
+            events += drain(&mut s2, &mut view2, 0, bound)?.0 as u64;
+            let got: Vec<u32> = view2.iter().copied().collect();
+            if got != expect(&model) {
+                return Err(format!(
+                    "after {op1:?}, {taken} item(s) taken, then into_parts and a drain: values + diffs give {got:?}, the adapter's view of the source {model:?} is {:?}",
+                    expect(&model)
+                ));
+            }
+            apply_on_vec(&mut ob, &mut model, op2);
+            events += drain(&mut s2, &mut view2, 0, bound)?.0 as u64;
+            let got: Vec<u32> = view2.iter().copied().collect();
+            if got != expect(&model) {
+                return Err(format!("after the further update {op2:?}: values + diffs give {got:?}, expected {:?}", expect(&model)));
+            }
+            Ok(events)
+        }};
+    }
+    let sub = ob.subscribe().into_values_and_stream();
+    match (kind, dynamic) {
+        (Kind::Head, true) => {
+            let (v0, a) = sub.dynamic_head_with_initial_value(limit, Observable::subscribe(&lim));
+            body!(a, v0)
+        }
+        (Kind::Tail, true) => {
+            let (v0, a) = sub.dynamic_tail_with_initial_value(limit, Observable::subscribe(&lim));
+            body!(a, v0)
+        }
+        (Kind::Skip, true) => {
+            let (v0, a) = sub.dynamic_skip_with_initial_count(limit, Observable::subscribe(&lim));
+            body!(a, v0)
+        }
+        (Kind::Head, false) => {
+            let (v0, a) = sub.head(limit);
+            body!(a, v0)
+        }
+        (Kind::Tail, false) => {
+            let (v0, a) = sub.tail(limit);
+            body!(a, v0)
+        }
+        (Kind::Skip, false) => {
+            let (v0, a) = sub.skip(limit);
+            body!(a, v0)
+        }
+    }
+}
+
+fn apply_on_vec(ob: &mut eyeball_im::ObservableVector<u32>, model: &mut Vec<u32>, op: &VOp) {
+    match op {
+        VOp::PushBack(v) => ob.push_back(*v),
+        VOp::PushFront(v) => ob.push_front(*v),
+        VOp::PopBack => {
+            ob.pop_back();
+        }
+        VOp::PopFront => {
+            ob.pop_front();
+        }
+        VOp::Insert(i, v) => ob.insert(*i, *v),
+        VOp::Set(i, v) => {
+            ob.set(*i, *v);
+        }
+        VOp::Remove(i) => {
+            ob.remove(*i);
+        }
+        VOp::Truncate(n) => ob.truncate(*n),
+        VOp::Clear => ob.clear(),
+        VOp::Append(vs) => ob.append(vs.iter().copied().collect()),
+        _ => return,
+    }
+    model_op(model, op);
+}
+
+/// every kind x {fixed, dynamic with initial value} x limits 0..4 x initial lengths 0..5 x every single source
+/// operation x 0..2 items taken before the adapter is handed on x a second operation
+pub fn late_parts(prop: &str, p: &Params) -> Outcome {
+    let gen_name = "late-into-parts-exh";
+    let mut roots = vec![];
+    for kind in [Kind::Head, Kind::Tail, Kind::Skip] {
+        for dynamic in [false, true] {
+            for limit in 0..=4usize {
+                for len in 0..=5usize {
+                    roots.push((kind, dynamic, limit, len));
+                }
+            }
+        }
+    }
+    let mut out = p.cases(gen_name, roots.len() as u64, |ri, out| {
+        let (kind, dynamic, limit, len) = roots[ri as usize];
+        let init: Vec<u32> = (1..=len as u32).collect();
+        let ops1 = src_alphabet(&init, 0, &|_, j| 50 + j as u32, 8, false);
+        for a1 in &ops1 {
+            let AOp::Src(op1) = a1 else { continue };
+            let mut m = init.clone();
+            model_op(&mut m, op1);
+            let ops2 = [VOp::PushBack(70), VOp::PushFront(71), VOp::PopFront, VOp::PopBack];
+            for taken in 0..=2usize {
+                for op2 in &ops2 {
+                    out.ev.evaluations += 1;
+                    let r = std::panic::catch_unwind(std::panic::AssertUnwindSafe(|| late_parts_case(kind, dynamic, limit, &init, op1, taken, op2)));
+                    let r = match r {
+                        Ok(r) => r,
+                        Err(_) => Err(format!("unexpected panic: {}", last_panic())),
+                    };
+                    match r {
+                        Ok(events) => {
+                            out.ev.add("late_into_parts_items", events);
+                            if events > 0 {
+                                out.ev.nontrivial(hash_of(&(ri, format!("{op1:?}{taken}{op2:?}"))));
+                            }
+                        }
+                        Err(what) => {
+                            let mine = match what.strip_prefix('[').and_then(|r| r.split_once(']')) {
+                                Some((tags, _)) => tags.split('|').any(|t| t == prop),
+                                None => prop == "C09" || prop == "C12",
+                            };
+                            if mine {
+                                out.violations.push(Violation {
+                                    property: prop.to_string(),
+                                    case: json!({"gen": gen_name, "case": ri}),
+                                    history: vec![
+                                        format!("{kind:?} ({}), limit/count {limit}, source {init:?}", if dynamic { "dynamic with initial value" } else { "fixed" }),
+                                        format!("{op1:?}; first consumer takes {taken} item(s); VectorObserver::into_parts(adapter); drain; {op2:?}; drain"),
+                                    ],
+                                    what,
+                                });
+                                return;
+                            } else {
+                                out.ev.foreign += 1;
+                            }
+                        }
+                    }
+                }
+            }
+        }
+    });
+    out.ev.exhaustive_scopes.push(format!(
+        "{gen_name}: head/tail/skip x {{fixed, dynamic with initial value}} x limits 0..4 x initial lengths 0..5 x every single source operation with every index x 0..2 items taken by a first consumer before `VectorObserver::into_parts(adapter)` x 4 further operations"
+    ));
     out
 }
